@@ -156,7 +156,16 @@ C14Raw(e) == e.ev = "ctrlraw" =>
     /\ e.ok = DecMsg(e.bytes).ok /\ e.pok = e.ok            \* (SType 0 with PType 0 is a header-only data message)
     /\ (TypeOf(e.hdr[5], e.hdr[6]) \notin Kinds
         \/ (e.ok /\ e.msg2.kind = "ctrl" /\ e.msg2.hdr = e.hdr /\ e.type2 = e.type /\ e.same2)))
-PropC14(e) == C14Case(e) /\ C14Type(e) /\ C14Sid(e) /\ C14Pairing(e) /\ C14Raw(e)
+\* behaviours of HsmsSession replayed with the library: what is sent is the header the protocol model names, what
+\* arrives decodes and classifies as the model's receive branch assumes, replies are built from the decoded request
+SessHdr(r) == <<r.sid \div 256, r.sid % 256, r.b2, r.b3, r.ptype, r.stype, 0, r.sys[1], 0, r.sys[2]>>
+C14Session(e) == e.ev = "sess" =>
+   (IF e.act = "Send" THEN e.built /\ e.bytes = Wire(SessHdr(e.rec))
+    ELSE /\ ~e.desync /\ e.bytes = Wire(SessHdr(e.rec))
+         /\ e.ok = (TypeOf(e.rec.ptype, e.rec.stype) # "undefined")
+         /\ (~e.ok \/ e.type = TypeOf(e.rec.ptype, e.rec.stype))
+         /\ (e.reply.m.sid = -1 \/ (e.rbuilt /\ e.rbytes = Wire(SessHdr(e.reply.m)))))
+PropC14(e) == C14Case(e) /\ C14Type(e) /\ C14Sid(e) /\ C14Pairing(e) /\ C14Raw(e) /\ C14Session(e)
 
 \* ------------------------------------------------------------------ model agreement (drift only)
 AgreeDecoder(e) == e.ev \in {"rt", "dec"} =>
